@@ -23,8 +23,9 @@ TRUSTED = ["harness/c05.py movie encoder and declarative assembler (Python)", "s
            "sampled correspondence", "key/cas/lctx models are those of C17 (lean/Drx/Idx.lean)",
            "real mode: adapters of lean/Drx/DirReal.lean between the family models and Dir.Decoders (hand-written, exercised by the comparison); "
            "canonical form real_jsonable (bytes as hex, SampledSound by its fields)",
-           "bitmaps above the tier's pixel cap and bitmap records with negative width/height/horizontal padding are not compared with the Lean "
-           "bitmap model (counted in input_kinds real-big / outside_bitmap_model)"]
+           "in the `dir real` driver path bitmaps above 4096 pixels are decoded by the array-based twin lean/Drx/BitdFast.lean (driver only, "
+           "compared with the list model on every C06 case); the theorems are about the list model; line `dir realslow` runs the list model",
+           "bitmap records with negative width/height are not compared with the Lean bitmap model"]
 ASSUMPTIONS = ["members carry links of kinds compatible with their type in the D stream (arbitrary combinations only in the model-vs-implementation stream)"]
 
 # ---------------------------------------------------------------------------------------------- stubs (mirrored in lean/Drx/Drv/Dir.lean)
@@ -429,11 +430,13 @@ def gen_bitmap_member(rng, depth, pal_id):
 
 _GEN_POOL = None
 REAL_CODECS = ["default"] * 14 + ["mac_roman"] * 3 + ["latin_1"] * 3 + ["cp1252"] * 2 + ["utf_8", "ascii"]
-# A bitmap with more pixels than this is not sent to the Lean driver in that tier: the list-based bitmap model (lean/Drx/Bitd.lean) paints
-# one pixel per list update, i.e. quadratic time (10 000 px ~ 1 s, 120 000 px ~ 2.5 min; porteus.DIR 855x708 would take about an hour).
-# The declarative-assembler oracle still checks those movies.
-LEAN_PIXEL_CAP = dict(quick=40_000, thorough=60_000, search=22_000)          # recombined movies (many per run)
-FIXTURE_PIXEL_CAP = dict(quick=60_000, thorough=200_000, search=22_000)      # the repo's own movies (each once per run)
+# The DRIVER decodes bitmaps above 4096 pixels with the array-based twin of the bitmap model (lean/Drx/BitdFast.lean through
+# `realDecodersFast` in lean/Drx/Drv/Dir.lean; porteus.DIR 855x708 in about 2 s), so every movie is sent to the Lean driver. The caps
+# only keep a pathological generated record (say 30000 x 30000) away from both sides.
+LEAN_PIXEL_CAP = dict(quick=2_000_000, thorough=2_000_000, search=2_000_000)        # recombined movies
+FIXTURE_PIXEL_CAP = dict(quick=2_000_000, thorough=2_000_000, search=2_000_000)     # the repo's own movies
+SLOW_MODEL_PIXELS = 20_000   # a recombined movie whose bitmaps stay below this also goes through `dir realslow` (list model only)
+PARTS_PIXELS = 60_000      # a repo movie above this is compared once (whole); below, also part by part (`dir realparts`)
 
 
 def _hexes0(case):
@@ -649,17 +652,22 @@ def real_case(rng, tier="quick"):
     m = gen_real_movie(rng)
     data = encode_movie(m)
     P = len(m["prefix"])
-    big = _max_pixels(m) > LEAN_PIXEL_CAP[tier]
+    px = _max_pixels(m)
+    big = px > LEAN_PIXEL_CAP[tier]
     spec = dict(mode="real", order=m["order"], prefix_len=P, nslots=len(m["members"]), nscripts=len(m["scripts"] or []), codec=m["codec"],
                 sha=hashlib.sha1(data).hexdigest()[:12], movie=json.loads(canon(to_jsonable(m))))
-    return Case(kind="real-big" if big else "real", spec=spec, lines=[("#" if big else "") + f"dir real {m['codec']} {m['order']} {P} {hx(data)}"], expect=[None])
+    lines = [("#" if big else "") + f"dir real {m['codec']} {m['order']} {P} {hx(data)}"]
+    if px <= SLOW_MODEL_PIXELS:
+        # the model of the theorems itself (`parseDirReal`: list-based bitmap model for every size) wherever that is cheap
+        lines.append(f"dir realslow {m['codec']} {m['order']} {P} {hx(data)}")
+    return Case(kind="real-big" if big else "real", spec=spec, lines=lines, expect=[None] * len(lines))
 
 
 def fixture_cases(tier):
     """the repo's own movies, whole: tests/files/cast/**/*.DIR and the movies/projector under tests/files/riff (RIFX located the way
     riffxtract does). Model-vs-implementation only (there is no spec object for them); read from $DRX_REPO at run time. Two lines per
-    movie: the whole result, and the result part by part with members outside the bitmap model's domain masked (see real_parts_impl).
-    A movie with a bitmap above the tier's pixel cap is not sent to the Lean driver in that tier."""
+    movie: the whole result, and the result part by part with members outside the bitmap model's domain (negative width/height; none
+    in the repo today) masked (see real_parts_impl)."""
     out = []
     try:
         from drxtract.riff.riff import find_riff_in_exe
@@ -678,10 +686,11 @@ def fixture_cases(tier):
         spec = dict(mode="fixture", file=str(p.relative_to(REPO)), order=order, prefix_len=off, codec="default", max_pixels=px,
                     outside_bitmap_model=len(outside), sha=hashlib.sha1(data).hexdigest()[:12])
         pre = "#" if slow else ""
-        lines = [pre + f"dir realparts default {order} {off} {hx(data)}"]
-        if not outside and px <= FIXTURE_PIXEL_CAP["quick"]:
-            # (a movie that costs minutes in the bitmap model is compared once, part by part: the same observations when the call returns)
-            lines.insert(0, pre + f"dir real default {order} {off} {hx(data)}")
+        lines = []
+        if not outside:
+            lines.append(pre + f"dir real default {order} {off} {hx(data)}")
+        if outside or px <= PARTS_PIXELS:
+            lines.append(pre + f"dir realparts default {order} {off} {hx(data)}")
         out.append(Case(kind="repo-fixture-big" if slow else "repo-fixture", spec=spec, lines=lines, expect=[None] * len(lines)))
     return out
 
@@ -732,8 +741,8 @@ def _setenc(codec):
 def _run_real(codec, order, P, data):
     """the REAL parse_dir_file_data under DRX_ENCODING=codec -> (DirectorFile or None when it raised, ids of the member dicts whose
     bitmap record leaves the domain of the bitmap MODEL, largest pixel count handed to bitd2bmp). bitd2bmp is wrapped by an
-    observer and otherwise called unchanged. Outside the model's domain = negative width / height / horizontal padding with a depth
-    that has a decoder (lean/Drx/Bitd.lean `Call` has natural-number fields; Drx/DirReal.lean `bitdInDomain`)."""
+    observer and otherwise called unchanged. Outside the model's domain = negative width / height with a depth that has a decoder
+    (lean/Drx/Bitd.lean `Request` has natural-number width and height, integer offsets; Drx/DirReal.lean `bitdInDomain`)."""
     import drxtract.dir.dir as dd
     from drxtract.bitd.bitd2bmp import DECODERS
     real_bitd = dd.bitd2bmp
@@ -742,7 +751,7 @@ def _run_real(codec, order, P, data):
     def spy(castData, clutData, fdata):
         try:
             if castData["depth"] in DECODERS:
-                if castData["width"] < 0 or castData["height"] < 0 or castData["w_padding"] < 0:
+                if castData["width"] < 0 or castData["height"] < 0:
                     outside.add(id(castData))
                 px[0] = max(px[0], abs(castData["width"]) * (abs(castData["height"]) + abs(castData["h_padding"])))
         except Exception:
@@ -780,7 +789,7 @@ def real_impl(codec, order, P, data):
 
 def real_parts_impl(codec, order, P, data):
     """line `dir realparts`: every part of the result on its own; a member outside the bitmap model's domain is masked as "error" on
-    both sides, so that the rest of such a movie (AppleGame.dir has one bitmap with horizontal padding -4) is still compared.
+    both sides, so that the rest of such a movie is still compared (no repo movie needs it since negative offsets are modelled).
     None when the real call raised (no parts to look at)."""
     df, outside, _ = _run_real(codec, order, P, data)
     if df is None:
@@ -793,11 +802,11 @@ def real_parts_impl(codec, order, P, data):
 def impl(case):
     import drxtract.dir.dir as dd
     t = case["lines"][0].lstrip("#").split()
-    if t[1] in ("real", "realparts"):
+    if t[1] in ("real", "realslow", "realparts"):
         out = []
         for line in case["lines"]:
             t = line.lstrip("#").split()
-            f = real_impl if t[1] == "real" else real_parts_impl
+            f = real_parts_impl if t[1] == "realparts" else real_impl
             out.append(f(t[2], t[3], int(t[4]), bytes.fromhex("" if t[5] == "-" else t[5])))
         return out
     order, P, data = t[2], int(t[3]), bytes.fromhex("" if t[4] == "-" else t[4])
